@@ -34,7 +34,86 @@ TABLES = ('_cp_to_unicode', '_unicode_to_cp', '_substitutes', '_inverse_substitu
 MUT = ('update', 'pop', 'clear', 'setdefault', 'popitem', '__setitem__', '__delitem__')
 
 
+def _held_byte_typestate(ctx, rep):
+    """The streaming splitter without box protection holds at most a lead byte in `_buf`.  Typestate over
+    Converter._process_nobox (EMPTY after `self._flush()` with no count, or on a branch where `self._buf` tested
+    false; HELD after `_buf` is assigned or extended): the incoming byte may be emitted, and `_buf` may be
+    overwritten, only in state EMPTY -- otherwise a held byte is emitted after a later one, or lost, and the pieces no
+    longer concatenate to the input."""
+    fn = ctx.fn(CP + ':Converter._process_nobox')
+    EMPTY, HELD = 'EMPTY', 'HELD'
+    problems, sites = [], [0]
+
+    def emits_c(expr):
+        # [c] literal or out.append(c)
+        for n in ast.walk(expr):
+            if isinstance(n, ast.List) and [norm(e) for e in n.elts] == ['c']:
+                return True
+            if isinstance(n, ast.Call) and norm(n.func) == 'out.append' and [norm(a) for a in n.args] == ['c']:
+                return True
+        return False
+
+    def flushes(expr):
+        return any(isinstance(n, ast.Call) and norm(n.func) == 'self._flush' and not n.args and not n.keywords for n in ast.walk(expr))
+
+    def block(stmts, st):
+        for s_ in stmts:
+            if st is None:
+                return None
+            st = stmt(s_, st)
+        return st
+
+    def stmt(s_, st):
+        if isinstance(s_, ast.Return):
+            return None
+        if isinstance(s_, ast.If):
+            t = norm(s_.test)
+            a = block(s_.body, HELD if t == 'self._buf' else st)
+            b = block(s_.orelse, EMPTY if t == 'self._buf' else st)
+            if a is None:
+                return b
+            if b is None:
+                return a
+            return EMPTY if a == b == EMPTY else HELD
+        if isinstance(s_, (ast.Assign, ast.AugAssign)):
+            tgt = norm(s_.targets[0] if isinstance(s_, ast.Assign) else s_.target)
+            val = s_.value
+            if flushes(val):
+                # `out += self._flush() + [c]`: the flush is evaluated before the byte is appended
+                st = EMPTY
+            if emits_c(val):
+                sites[0] += 1
+                if st != EMPTY:
+                    problems.append((s_, 'the incoming byte is emitted while an earlier byte may still be held'))
+            if tgt == 'self._buf':
+                if isinstance(s_, ast.Assign):
+                    sites[0] += 1
+                    if st != EMPTY:
+                        problems.append((s_, 'the held byte is overwritten'))
+                return HELD
+            return st
+        if isinstance(s_, ast.Expr):
+            if flushes(s_.value):
+                st = EMPTY
+            if emits_c(s_.value):
+                sites[0] += 1
+                if st != EMPTY:
+                    problems.append((s_, 'the incoming byte is emitted while an earlier byte may still be held'))
+            return st
+        return st
+    block(fn.body, HELD)
+    for node, why in problems:
+        rep.ob('stream.held-byte-order', '_process_nobox: %s' % short(node, 50), False, why + ': the emitted sequences no longer concatenate to the input', ctx.where(node))
+    rep.ob('stream.held-byte-order', '_process_nobox emits the incoming byte and re-fills the buffer only when no earlier byte is held (%d sites)' % sites[0], not problems)
+    rep.floor('stream.held-byte-order', sites[0], 3, 'emission / refill sites')
+    fl = ctx.fn(CP + ':Converter._flush')
+    st_ = [norm(x) for x in fl.body if not (isinstance(x, ast.Expr) and isinstance(x.value, ast.Constant))]
+    rep.ob('stream.flush-empties', '_flush returns the held bytes and removes exactly them from the buffer',
+           'self._buf = self._buf[num:]' in st_ and any('out.append(self._buf[:num])' in x for x in st_), repr(st_), ctx.where(fl))
+
+
 def check(ctx, rep):
+    _held_byte_typestate(ctx, rep)
     ini = ctx.fn(CP + ':Codepage.__init__')
     # table keys and looked-up text are brought to the same Unicode normal form: the lookup side normalises
     # every input string, so every table entry (of any length) must be normalised the same way
@@ -114,6 +193,7 @@ def variants(ctx):
         return lambda tree: f(mu.find_def(tree, f_name))
 
     return [
+        Va('lead-byte-not-flushed-before-plain-byte', 'break', CP, in_fn('Converter._process_nobox', _flush_only_for_lead), expect='stream.held-byte'),
         Va('only-multi-codepoint-entries-normalised', 'break', CP, in_fn('Codepage.__init__', _conditional_normalise), expect='normal-form'),
         Va('inverse-built-from-argument', 'break', CP,
            in_fn('Codepage.__init__', lambda fn: mu.replace_expr(fn, mu.text_is('iteritems(self._cp_to_unicode)'), 'iteritems(codepage_dict)')), expect='inverse.derived'),
@@ -157,3 +237,23 @@ def _conditional_normalise(fn):
                     lp.body[i] = ast.If(test=ast.parse('len(unicode_cluster) > 1', mode='eval').body, body=[st], orelse=[])
                     return True
     return False
+
+
+def _flush_only_for_lead(fn):
+    # move the `else: out += self._flush()` of the held-buffer branch into the `c in lead` branch below it
+    held = [s for s in fn.body if isinstance(s, ast.If)][0]
+    node = held
+    while node is not None and norm(node.test) != 'self._buf':
+        node = node.orelse[0] if len(node.orelse) == 1 and isinstance(node.orelse[0], ast.If) else None
+    if node is None:
+        return False
+    inner = node.body[0]
+    if not (isinstance(inner, ast.If) and inner.orelse):
+        return False
+    fl = inner.orelse
+    inner.orelse = []
+    lead = [s for s in fn.body if isinstance(s, ast.If) and norm(s.test) == 'c in self._cp.lead']
+    if len(lead) != 1:
+        return False
+    lead[0].body[0:0] = fl
+    return True
